@@ -35,6 +35,9 @@ def run(ctx):
             raise AnalysisError(f"{f}: time loop not recognised")
         wl = whiles[0]
         sweeps = [n for n in wl.body if isinstance(n, ast.For)]
+        if len(sweeps) > 1:
+            # the sweep is the loop that writes the state (other loops of the time step only collect information)
+            sweeps = [n for n in sweeps if any(isinstance(x, ast.Subscript) and isinstance(x.ctx, ast.Store) for x in ast.walk(n))]
         if len(sweeps) != 1 or not isinstance(sweeps[0].target, ast.Name):
             raise AnalysisError(f"{f}: node sweep not recognised")
         sw = sweeps[0]
@@ -79,15 +82,25 @@ def run(ctx):
         for n in ast.walk(sw):
             if isinstance(n, ast.Call) and isinstance(n.func, ast.Attribute) and n.func.attr in ("get_neighbors", "get_incident_edges"):
                 calls.setdefault(n.func.attr, []).append(n)
+        # look-ups hoisted out of the time loop: `links = {n: hg.get_neighbors(n, order=1) for n in nodes}` ... `links[node]`
+        hoisted = {}
+        for lp_ in [x for x in ast.walk(sw) if isinstance(x, ast.For) and x is not sw]:
+            it_ = lp_.iter
+            if isinstance(it_, ast.Subscript) and isinstance(it_.value, ast.Name) and norm(it_.slice) == node:
+                tab_ = v.resolve(it_.value)
+                if isinstance(tab_, ast.DictComp) and len(tab_.generators) == 1 and isinstance(tab_.generators[0].target, ast.Name) and norm(tab_.key) == tab_.generators[0].target.id:
+                    for n in ast.walk(tab_.value):
+                        if isinstance(n, ast.Call) and isinstance(n.func, ast.Attribute) and n.func.attr in ("get_neighbors", "get_incident_edges"):
+                            hoisted.setdefault(n.func.attr, []).append((n, tab_.generators[0].target.id))
         for meth, want in (("get_neighbors", 1), ("get_incident_edges", 2)):
-            cs = calls.get(meth, [])
+            cs = [(c, node) for c in calls.get(meth, [])] + hoisted.get(meth, [])
             res.check(len(cs) == 1, "D-ORDER", f, meth, "present", f"the sweep does not consult {meth} exactly once", loc(v.fi, sw))
-            for c in cs:
+            for c, who in cs:
                 kw = {k.arg: k.value for k in c.keywords}
                 o = kw.get("order")
                 sz = kw.get("size")
                 ok = (isinstance(o, ast.Constant) and o.value == want) or (isinstance(sz, ast.Constant) and sz.value == want + 1)
-                res.check(ok and c.args and norm(c.args[0]) == node, "D-ORDER", f, norm(c), f"order={want}", f"{meth} is not restricted to order {want} of the node being updated", loc(v.fi, c))
+                res.check(ok and c.args and norm(c.args[0]) == who, "D-ORDER", f, norm(c), f"order={want}", f"{meth} is not restricted to order {want} of the node being updated", loc(v.fi, c))
         # D-TRIAD: the three-body rule looks up the state of BOTH other members of the 3-node hyperedge in the old state, not in a
         # population restricted to the pairwise neighbours
         res.rules["D-TRIAD"] = "the three-body infection tests the old state of both other members of the hyperedge (not a set restricted to pairwise neighbours)"
@@ -160,6 +173,58 @@ def run(ctx):
                 res.add("D-SCAN", f, norm(par.test)[:120] if isinstance(par, ast.If) else "break", "break-after-infection", "ok" if infected or tested else "violation", "" if infected or tested else "the scan over the node's partners / triangles stops although the node was not infected: later pairs / 3-node hyperedges that could infect it are never examined", loc(v.fi, b_))
         if not tri_loops:
             res.unknown("D-TRIAD", f, "for triplet in get_incident_edges(node, order=2)", "both-partners-old", "the loop over the 3-node hyperedges was not recognised", loc(v.fi, sw))
+        # D-SKIP: a susceptible node is passed over (`continue` of the sweep before its triangles were looked at) only on the
+        # strength of its own state; a shortcut "no infected contact" must count the members of its 3-node hyperedges as contacts
+        res.rules["D-SKIP"] = "a node is skipped before the three-body attempt only because of its own state, or by a contact test that includes the members of its 3-node hyperedges"
+        for b_ in ast.walk(sw):
+            if not isinstance(b_, ast.Continue) or v.enclosing(b_, (ast.For, ast.While)) is not sw:
+                continue
+            par = v.parent.get(id(b_))
+            if not isinstance(par, ast.If):
+                continue
+            bid = v.cfg_id(b_)
+            skips_tri = any(l_.lineno > b_.lineno and not any(b_ is y for y in ast.walk(l_)) for l_ in tri_loops)
+            if not skips_tri:
+                continue
+            own_state = any(isinstance(x, ast.Subscript) and isinstance(x.value, ast.Name) and x.value.id in (new, old) and norm(x.slice) == node for x in ast.walk(par.test))
+            if own_state:
+                res.ok("D-SKIP", f, norm(par.test)[:120], "skip-before-triangles", loc(v.fi, b_))
+                continue
+            sets_ = [c_.comparators[0].id for c_ in ast.walk(par.test) if isinstance(c_, ast.Compare) and len(c_.ops) == 1 and isinstance(c_.ops[0], (ast.In, ast.NotIn)) and isinstance(c_.comparators[0], ast.Name) and norm(c_.left) == node]
+            verdict, why = "unknown", "a node is skipped before its 3-node hyperedges were examined; the condition was not recognised"
+            for sname in sets_:
+                srcs = []
+                for g_ in walk_no_nested(v.fi.node):
+                    if isinstance(g_, ast.Call) and isinstance(g_.func, ast.Attribute) and g_.func.attr in ("update", "add") and isinstance(g_.func.value, ast.Name) and g_.func.value.id == sname and g_.args:
+                        srcs.append(g_.args[0])
+                    if isinstance(g_, ast.AugAssign) and isinstance(g_.target, ast.Name) and g_.target.id == sname:
+                        srcs.append(g_.value)
+                if not srcs:
+                    continue
+
+                def kinds_of(e, depth=0):
+                    out = set()
+                    for x in ast.walk(e):
+                        if isinstance(x, ast.Call) and isinstance(x.func, ast.Attribute) and x.func.attr in ("get_neighbors", "get_incident_edges"):
+                            kw_ = {k.arg: k.value for k in x.keywords}
+                            o_ = kw_.get("order")
+                            s_ = kw_.get("size")
+                            pair = (isinstance(o_, ast.Constant) and o_.value == 1) or (isinstance(s_, ast.Constant) and s_.value == 2)
+                            out.add("pairwise" if pair else "wider")
+                        if isinstance(x, ast.Name) and depth < 3:
+                            r_ = v.resolve(x)
+                            if r_ is not x:
+                                out |= kinds_of(r_, depth + 1)
+                    return out
+
+                ks = set()
+                for e_ in srcs:
+                    ks |= kinds_of(e_)
+                if ks == {"pairwise"}:
+                    verdict, why = "violation", f"susceptible nodes outside `{sname}` are skipped before the three-body attempt, and `{sname}` is filled from the PAIRWISE neighbourhoods (order 1) only: a node whose two partners in a 3-node hyperedge are infected but which has no infected pairwise neighbour is never infected"
+                elif "wider" in ks:
+                    verdict, why = "unknown", "the contact set also draws on wider neighbourhoods; whether it covers all 3-node hyperedges was not decided"
+            res.add("D-SKIP", f, norm(par.test)[:120], "skip-before-triangles", verdict, why, loc(v.fi, b_))
         # D-SERIES
         rets = [n for n in walk_no_nested(v.fi.node) if isinstance(n, ast.Return)]
         series = None
